@@ -9,9 +9,10 @@ Definition rank_run (s : state) : nat :=
   | PRunLive => 2 * length (lscript s) + 2
   | PInHLive _ _ => 2 * length (lscript s) + 3
   | PGetFile => 4 | PRegFile => 2
-  | PRunFile => 2 * length (fscript s) + 4
-  | PInHFile _ _ => 2 * length (fscript s) + 5
-  | PJoinRet => 2 * length (fscript s) + 5
+  | PRunFile => 3 * length (fscript s) + 4
+  | PInHFile _ _ => 3 * length (fscript s) + 5
+  | PInJoinF => 3 * length (fscript s) + 6
+  | PJoinRet => 3 * length (fscript s) + 5
   | PShut => 1 | PSdBusy => 0 | PRet => 0
   end.
 Definition rank_x (s : state) : nat := match pcx s with XIdle => 1 | _ => 0 end.
@@ -141,7 +142,8 @@ Theorem jn_unfixed_hangs_file :
   terminated s = true /\ returned s = false /\ forall t, step (unfixed_cfg false true) s t = s.
 Proof. vm_compute. repeat split; auto. intros []; reflexivity. Qed.
 
-(* place 3 (+ fileSourceHandler): Shutdown completes inside the handler call that obtains the live source *)
+(* place 3 (+ fileSourceHandler): Shutdown completes inside the handler call that obtains the live source
+   (PInJoinF: inside the live-factory call of the join) *)
 Definition hang_sched_join : list tid := [TRun; TRun; TRun; TRun; TX; TX; TX; TX; TRun; TRun; TRun; TRun].
 Theorem jn_unfixed_hangs_join :
   let s := run (step (unfixed_cfg false true)) hang_sched_join (init [FJoin 4] []) in
@@ -151,7 +153,7 @@ Proof. vm_compute. repeat split; auto. intros []; reflexivity. Qed.
 Example jn_fixed_same_schedules :
   done (run (step (fixed_cfg true true)) hang_sched_live (init [] [])) = true /\
   done (run (step (fixed_cfg false true)) hang_sched_file (init [] [])) = true /\
-  done (run (step (fixed_cfg false true)) hang_sched_join (init [FJoin 4] [])) = true.
+  done (run (step (fixed_cfg false true)) (hang_sched_join ++ [TRun]) (init [FJoin 4] [])) = true.
 Proof. vm_compute. auto. Qed.
 
 (* ------------------------------------------------------------ no handler call after Run returned *)
